@@ -126,6 +126,17 @@ func c17Instances(base, tail, filt string) []c17Inst {
 				in.needArray = base
 			}
 			out = append(out, in)
+			// a projection with a right-hand side, piped into a new projection of further selectors or
+			// multi-selects == the same selectors written on (null results are dropped either way)
+			if tail == ".a" || tail == ".[a, b]" || tail == ".{x: a, y: b}" || tail == ".[a]" || tail == ".{x: a}" || tail == "[0]" || tail == ".*" || tail == ".a[0]" || tail == ".[a, b][0]" || tail == ".{x: a}.x" {
+				for _, t1 := range []string{".a", ".b", ".a.b", "[0]", ".a[0]"} {
+					sp := c17Inst{schema: "split-projection", lhs: p.proj + t1 + tail, rhs: p.proj + t1 + " | [*]" + tail}
+					if strings.HasPrefix(p.name, "slice") {
+						sp.needArray = base
+					}
+					out = append(out, sp, c17Inst{schema: "split-projection", lhs: p.proj + t1 + tail, rhs: "(" + p.proj + t1 + ") | [*]" + tail, needArray: sp.needArray})
+				}
+			}
 			// parenthesising or piping ends a projection
 			out = append(out, c17Inst{schema: "paren-ends-projection", lhs: "(" + p.proj + ")" + tail, rhs: p.proj + " | " + headAsExpr(tail), needNonNull: headGuard(p.proj, tail)})
 		}
